@@ -222,6 +222,43 @@ def templates():
         # ... also when the use sits inside another function and the declared name was shadowed meanwhile at the use site
         T.append([FACT, BIG, ACC, ("set", "g2", V("fact")),
                   ("fndecl", "run", [], ("any",), [("return", e)]), ("call", V("run"), [])])
+    # a user-written ITERATOR that reaches itself by its declared name (skipping elements), consumed by EVERY consumer at
+    # a site where that name denotes something else (re-declared after the iterator was saved under another name; shadowed
+    # inside the consuming function; not in scope at all - the iterator came from a factory)
+    def odds(limit):
+        dc = ("pre", "deref", V("count"))
+        return [("set", "count", ("mut", INT, I(0))),
+                ("fndecl", "odds", [], tup(BOOL, INT),
+                 [("assign", "add", V("count"), I(1)),
+                  ("if", ("bin", "eq", ("bin", "mod", dc, I(2)), I(0)), ("block", [("return", ("call", V("odds"), []))]), None),
+                  ("return", ("tuple", [("bin", "le", dc, limit), dc]))])]
+    HELP = [("fndecl", "dbl", [("n", INT)], INT, [("return", ("bin", "mul", V("n"), I(2)))]),
+            ("fndecl", "isbig", [("n", INT)], BOOL, [("return", ("bin", "gt", V("n"), I(3)))]),
+            ("fndecl", "add2", [("a", INT), ("b", INT)], INT, [("return", ("bin", "add", V("a"), V("b")))])]
+    consumers = {
+        "collect": lambda it: ([], ("post", "collect", it)),
+        "sum": lambda it: ([], ("post", "sum", it)),
+        "product": lambda it: ([], ("post", "product", it)),
+        "reduce": lambda it: ([], ("reduce", it, I(0), V("add2"))),
+        "partition": lambda it: ([], ("bin", "partition", it, V("isbig"))),
+        "map": lambda it: ([], ("post", "collect", ("bin", "map", it, V("dbl")))),
+        "filter": lambda it: ([], ("post", "collect", ("bin", "filter", it, V("isbig")))),
+        "tfilter": lambda it: ([], ("post", "collect", ("tfilter", it, INT))),
+        "all-of-map": lambda it: ([], ("post", "all", ("bin", "map", it, V("isbig")))),
+        "for": lambda it: ([("set", "s", ("mut", INT, I(0))), ("for", "k", it, ("block", [("assign", "add", V("s"), V("k"))]))], ("pre", "deref", V("s"))),
+    }
+    ITER_T = fn((), tup(BOOL, INT))
+    for nm, mk in consumers.items():
+        pre, e = mk(V("saved"))
+        T.append(HELP + odds(I(7)) + [("set", "saved", V("odds")),
+                                      ("fndecl", "odds", [], tup(BOOL, INT), [("return", ("tuple", [("false",), I(0)]))])] + pre + [e])
+        pre, e = mk(V("it"))
+        T.append(HELP + odds(I(7)) + [("fndecl", "consume", [("it", ITER_T)], ("any",),
+                                       [("fndecl", "odds", [], tup(BOOL, INT), [("return", ("tuple", [("true",), I(100)]))]),
+                                        ("set", "first", ("call", V("odds"), []))] + pre + [("return", e)]),
+                                      ("call", V("consume"), [V("odds")])])
+        T.append(HELP + [("fndecl", "make", [("limit", INT)], ITER_T, odds(V("limit")) + [("return", V("odds"))]),
+                         ("set", "it", ("call", V("make"), [I(7)]))] + pre + [e])
     # every way a module's top level can declare a name: `:=`, destructuring, function declaration, re-declaration -
     # each is a field of the module (value AND static type: the field is read afterwards), names of inner scopes are not
     decls = {
